@@ -172,6 +172,41 @@ func checkC10(p *Prog, r *Report) {
 	if rh, runtime := ruleHashAnchors(p, r, "E2.hashcover"); rh != nil {
 		p.runHashCover(r, "E2.hashcover", rh, map[ssa.Value]bool{runtime: false}, []mustHash{{"pass_env", []string{"core.BuildTarget.PassEnv", "<os.Getenv>"}}, {"env", []string{"core.BuildTarget.Env", "keys:core.BuildTarget.Env"}}})
 	}
+	// the environment given to the action and the rule hash read a target's pass_env variables the same way
+	{
+		rl := "E9.passenv-reader-agreement"
+		readers := func(fns []*ssa.Function) map[string]bool {
+			out := map[string]bool{}
+			for _, g := range fns {
+				eachInstr(g, false, func(_ *ssa.Function, i ssa.Instruction) {
+					c, ok := i.(*ssa.Call)
+					if !ok || !isCallTo(c, "os.Getenv", "os.LookupEnv") {
+						return
+					}
+					for k := range p.fieldsOf(c.Call.Args[0], 0) {
+						if k == "core.BuildTarget.PassEnv" {
+							out[calleeName(&c.Call)] = true
+						}
+					}
+				})
+			}
+			return out
+		}
+		var envFns, hashFns []*ssa.Function
+		if te := p.Fn("core", "TargetEnvironment"); te != nil {
+			envFns = p.closure([]*ssa.Function{te}, 2, inRepoPkgs("core"))
+		}
+		if rh := p.Fn("build", "ruleHash"); rh != nil {
+			hashFns = withAnon(rh)
+		}
+		er, hr := readers(envFns), readers(hashFns)
+		if len(er) == 0 || len(hr) == 0 {
+			r.unresolved(rl, "reads of the target's pass_env variables in core.TargetEnvironment and build.ruleHash")
+		} else {
+			okk := !(er["os.LookupEnv"] && !hr["os.LookupEnv"])
+			r.check(okk, rl, "unset and empty pass_env variables are told apart by both sides or by neither", "-", "core.TargetEnvironment / build.ruleHash", "environment side reads with "+strings.Join(sortedKeys(er), ",")+", hash side with "+strings.Join(sortedKeys(hr), ","), "the action's environment distinguishes an unset pass_env variable from an empty one (os.LookupEnv) while the rule hash does not (name + os.Getenv): unset -> set-but-empty changes what the action sees (${V-default}, `set -u`) without changing the hash, so nothing is rebuilt")
+		}
+	}
 	rule = "E2.config-hash"
 	if ch := p.Fn("core", "Configuration.Hash"); ch != nil {
 		gbe := p.Fn("core", "Configuration.getBuildEnv")
@@ -197,6 +232,48 @@ func checkC10(p *Prog, r *Report) {
 		}
 		r.check(fromEnvKey && fromEnvVal, rule, "config hash covers names and values of the configured build env", p.pos(ch.Pos()), fnName(ch), "keys and values of getBuildEnv(...) are written to the hash", "Configuration.Hash does not write both the names and the values of getBuildEnv(): changing a config-level pass_env variable would not trigger rebuilds")
 		r.check(lang && nonce, rule, "config hash covers Lang and Nonce", p.pos(ch.Pos()), fnName(ch), "Build.Lang and Build.Nonce are written", "Build.Lang / Build.Nonce no longer reach the config hash")
+		// what pass_unsafe_env lets in must not reach the config hash: includeUnsafe is false at the call, and so is
+		// includePath while build.path can be filled from the caller's PATH (setBuildPath does that when PATH is passed)
+		if gbe != nil {
+			tainted := false
+			if sbp := p.Fn("core", "setBuildPath"); sbp != nil {
+				eachInstr(sbp, false, func(_ *ssa.Function, i ssa.Instruction) {
+					if c, ok := i.(*ssa.Call); ok && c.Call.StaticCallee() != nil && c.Call.StaticCallee().Name() == "setDefault" {
+						for _, a := range c.Call.Args {
+							if tagsOf(a, SliceOpts{})["call:os.Getenv"] || tagsOf(a, SliceOpts{})["call:os.LookupEnv"] {
+								tainted = true
+							}
+						}
+					}
+				})
+			}
+			nCalls := 0
+			for _, ci := range callsInFn(ch, gbe) {
+				cc := callCommon(ci)
+				nCalls++
+				bad := ""
+				for k, prm := range gbe.Params {
+					if k >= len(cc.Args) || !isBoolType(prm.Type()) {
+						continue
+					}
+					v, isC := constBool(cc.Args[k])
+					switch prm.Name() {
+					case "includeUnsafe":
+						if !isC || v {
+							bad = "includeUnsafe"
+						}
+					case "includePath":
+						if tainted && (!isC || v) {
+							bad = "includePath"
+						}
+					}
+				}
+				r.check(bad == "", rule, "nothing passed under pass_unsafe_env reaches the config hash", p.pos(ci.Pos()), fnName(ch), "getBuildEnv is called with includeUnsafe=false (and includePath=false: build.path can come from the caller's PATH)", "Configuration.Hash calls getBuildEnv with "+bad+" set: a variable the user declared unsafe (its value must not affect hashes) flows into the config hash, e.g. PATH via build.path when `passunsafeenv = PATH`, and changing it rebuilds everything")
+			}
+			if nCalls == 0 {
+				r.unresolved(rule, "getBuildEnv call in Configuration.Hash")
+			}
+		}
 		// getBuildEnv is called so that pass_env is included: PassEnv reads are not under an `includeX` parameter
 		if gbe != nil {
 			okk := false
@@ -349,4 +426,9 @@ func (p *Prog) execEnvRule(r *Report) {
 	if n == 0 {
 		r.ok("E7.exec-through-executor", "no direct exec.Command in packages build and test", "-", "", "all process creation in build/test goes through process.Executor")
 	}
+}
+
+func isBoolType(t types.Type) bool {
+	b, ok := t.Underlying().(*types.Basic)
+	return ok && b.Kind() == types.Bool
 }
